@@ -92,6 +92,10 @@ class odict(dict):
         for key in self._keys:
             yield key
 
+    def __reversed__(self):
+        """ reversed(x)"""
+        return reversed(self._keys)
+
     def __repr__(self):
         """
         odict representation
